@@ -623,6 +623,11 @@ func (x *Exec) checkGuards(st *State, fr *Frame, at ssa.Instruction, callee stri
 			if x.siteOrdinal(fr.fn, at, pat[:i]) != k {
 				continue
 			}
+			if os.Getenv("GVC_ORDINAL_ANY_FRAME") == "" && fr != st.frames[0] && fr.fn != x.Top {
+				// ordinals count the call sites of the function under contract itself; a site of
+				// the same ordinal inside an inlined callee is a different call
+				continue
+			}
 		} else if !matchCallee(pat, callee) {
 			continue
 		}
